@@ -73,7 +73,7 @@ impl MemoryKVVStore {
                 && (old(self).data.val@.dom().contains(k) ==> final(self).data.val@[k] == old(self).data.val@[k])),      //[C16.mem.put-frame]
         r.is_err() ==> final(self).data.val@ == old(self).data.val@,                                                     //[C10.kvv-mem.put-err-frame]
         versions_monotone(old(self).data.val@, final(self).data.val@),                                                   //[C16.mem.versions-never-decrease]
-//@sub /\*val != value/ => !vx_vec_eq(val, &value)
+//@sub /\*val (!=|==) value/ => (vx_vec_eq(val, &value) \1 true)
 //@end
 
 //@fn vls-persist/src/kvv/memory.rs :: impl KVVStore for MemoryKVVStore :: put_batch props=C16,C10
